@@ -309,16 +309,17 @@ def nameWith (fc : Facts) (x : Ext) (o : Opts) (st : St) (key : String) (schema 
   let (newName, isOAIGen) ← uniqify fc x (defNames st.doc) mangled
   let target := Str.join ["#/definitions", newName]
   let ref ← ask "mkRef" x.mkRef target
-  let d1 ← Replace.rewriteSchemaToRef st.doc key ref
+  let d0 ← Replace.rewriteSchemaToRef st.doc key ref
+  -- the clone is saved first: the `$ref`s it holds to the place it comes from are dependents like the others
+  let sch := schema.set "x-go-gen-location" (.str (genLocation parts))
+  let d1 := save d0 newName sch
   -- dependents: `an := New(isn.Spec)`
   let refs := allRefs (Analyzer.analyze fc d1)
   let fuel := 64 + refs.length
-  let d2 ← refs.foldlM (fun d kv => do
+  let d3 ← refs.foldlM (fun d kv => do
     let r ← deepestRef x d fuel kv.2
     if r.1 ≠ key ∧ (r.1 ≠ target ∨ Str.dir kv.2 = "#/definitions") then pure d
     else Replace.updateRef d kv.1 ref) d1
-  let sch := schema.set "x-go-gen-location" (.str (genLocation parts))
-  let d3 := save d2 newName sch
   let resolved := match getNR key st.ctx.newRefs with
     | some r => r.resolved
     | none => false
@@ -511,6 +512,14 @@ def stripOAIGenForRef (fc : Facts) (x : Ext) (st : St) (k : String) (r : NewRef)
     let replacingRef ← (if others.isEmpty then pure "" else ask "mkRef" x.mkRef p0)
     let (d2, nrs2, rep2) ← others.foldlM (fun (acc : J × List (String × NewRef) × Bool) p => do
       let d ← Replace.updateRef acc.1 p replacingRef
+      -- Go aliasing: `UpdateRefWithSchema` copied the definition's schema struct into the first parent, so every nested
+      -- container is shared between the definition and the re-inlined copy: a `$ref` rewritten *inside* the
+      -- definition (a parent that is a self-reference) is rewritten in the copy as well
+      let d := if Str.hasPrefix (r.path ++ "/") p then
+          (match Replace.updateRef d (Str.join [p0, trimPrefix r.path p]) replacingRef with
+           | .ok d' => d'
+           | _ => d)
+        else d
       let (nrs, rep) := adopt p (acc.2.1, acc.2.2 || Str.dir replacingRef ≠ "#/definitions")
       pure (d, nrs, rep)) (d1, nrs1, rep1)
     -- `delete(opts.Swagger().Definitions, path.Base(r.path))`
